@@ -2,6 +2,7 @@
 
 Entry `unreal2 <port> <gather> <retries> <script>`; `<gather>` = two letters (s skip / t try / e enforce): the
 mutators-and-rules toggle, then the players toggle (server info is always required)."""
+from props import malformed
 
 FAMILY = dict(send_units=3, 
     name="unreal2", nargs=3, gen="unreal2", retries=2, port=0, gather=1, decode_property="C06", entry="unreal2",
@@ -104,7 +105,7 @@ def c10_build_multi(valid, vecs, r, new_id):
             elif e == "F":
                 faults.append(True)
             elif e == "M":
-                newds.append(b"\xff\xff")
+                newds.append(malformed.CURRENT)
                 faults.append(False)
             else:
                 newds += groups[k]
